@@ -9,15 +9,21 @@ IMPL = "yee_impl.py"
 COQ_HEADER = Y.HEADER
 SHARD = 1
 RULE = ("hand-built periodic / Bloch containers of N cells and their supercells (tiling factors 2-3 along each periodic axis, Bloch phase applied "
-        "per copy, random k, random diagonal materials, optional conductivity and PEC/PMC on the remaining axes) stepped by forward(): "
-        "the supercell state must equal the tiled unit-cell state at every step; model tie: per-step correspondence on both containers")
+        "per copy, random k, random diagonal materials, optional conductivity and PEC/PMC on the remaining axes; uniform grids and non-uniform "
+        "grids whose first and last cell widths agree along every tiled axis, grid tiled with the period) stepped by forward(): "
+        "the supercell state must equal the tiled unit-cell state at every step; model tie: per-step correspondence on both containers; "
+        "one scene with different first / last widths along a tiled axis replays the Coq witness C09_seam_width_needed_refuted (known finding)")
 ASSUMPTIONS = ["Bloch phases are oracle values taken from the implementation"]
 TRUSTED = ["correspondence harness"]
-LEVEL_TEXT = ("PARTIAL. Theorems (all N, m, phases): forward and backward ghost reads of a tiled array are the tiled reads of one period - the only "
-              "non-local ingredient of the step. The full supercell statement is decided by model-vs-implementation correspondence on both domains and by the "
-              "tiling predicate on the implementation.")
-LEVEL_NOTE = "The 3-D lift of the tiling lemmas through curl/update is not yet proved in Coq."
-TECHNIQUE = "Coq proof (div/mod index arithmetic + phase powers) + differential unit-cell/supercell runs"
+LEVEL_TEXT = ("Theorem C09_supercell_forward (every PML-free scene of the model: any cell counts, tiling factors mx, my, mz, ghost factors with lo*hi = 1 "
+              "on tiled axes - periodic and Bloch with any unit phase -, any halo on untiled axes, widths, iso/diagonal materials, both conductivities, "
+              "PEC/PMC masks, tiled source terms; any number of steps): on every cell of the supercell the state is the unit-cell state of cell (i mod N) "
+              "times the per-copy phase. Hypothesis per tiled axis: first and last cell width of the period agree; C09_seam_width_needed_refuted shows "
+              "by computation that the statement fails without it (the source uses w0 instead of (w0+w_{N-1})/2 for the dual cell across a periodic seam). "
+              "Tie: per-step correspondence of the model on the unit cell and on the supercell; tiling predicate on the implementation.")
+LEVEL_NOTE = ("Scenes with CPML layers on untiled axes and 9-component tensors are outside the theorem (covered by the predicate only where generated); "
+              "Bloch phases are oracle values.")
+TECHNIQUE = "Coq proof (div/mod index arithmetic, phase powers, 3-D lift through curls/updates, induction over steps) + differential unit-cell/supercell runs"
 
 
 def gen_case(rng, quick, i):
@@ -37,11 +43,27 @@ def gen_case(rng, quick, i):
         c["kvec"] = kvec
     if i % 3 == 2:
         c["sigma"] = "EH"
+    if i % 4 == 1:      # non-uniform grid whose first and last widths agree along every tiled axis
+        edges = []
+        for a in range(3):
+            w = [rng.choice([0.75, 1.0, 1.5, 2.0]) for _ in range(shape[a])]
+            if reps[a] > 1:
+                w[-1] = w[0]
+            edges.append([0.0] + [float(v) * 2.0 ** -23 for v in np.cumsum(w)])
+        c["edges"] = edges
     return c
 
 
+def seam_case():
+    """the Coq witness C09_seam_width_needed_refuted on the implementation: widths [1, 2] along a periodic x axis, 2-fold supercell"""
+    per = {f"{s_}_{a}": "periodic" for s_ in ("min", "max") for a in "xyz"}
+    u = 2.0 ** -23
+    return {"shape": [2, 2, 2], "bt": per, "ncomp": 1, "seed": 3, "steps": 2, "back": 0, "tile": [2, 1, 1],
+            "edges": [[0.0, u, 3 * u], [0.0, u, 2 * u], [0.0, u, 2 * u]], "seam": True}
+
+
 def gen_cases(ctx):
-    return [gen_case(ctx.rng, ctx.quick, i) for i in range(ctx.pick(5, 30))]
+    return [seam_case()] + [gen_case(ctx.rng, ctx.quick, i) for i in range(ctx.pick(5, 30))]
 
 
 def run_cases(ctx, cases):
@@ -64,6 +86,9 @@ def predicate(case, out):
     if "error" in out:
         return ("driver-error", out["error"] + out.get("trace", "")[-300:])
     if out["tile_err"] > 1e-12 * out["scale"]:
+        if case.get("seam"):
+            return ("nonuniform-seam-width-mismatch", f"non-uniform periodic axis with first width != last width: supercell differs from the tiled unit cell "
+                    f"by {out['tile_err']:.3e} (scale {out['scale']:.3e})")
         key = "bt=" + ",".join(f"{k}:{v}" for k, v in sorted(case["bt"].items())) + f";tile={case['tile']}"
         return ("supercell-differs:" + key, f"supercell state differs from the tiled unit cell by {out['tile_err']:.3e} (scale {out['scale']:.3e})")
     return None
